@@ -61,12 +61,18 @@ func zzC13_tcp_history() {
 				return
 			}
 			if symChoose("pong", 2) == 0 {
+				// answered: the exchange has ended, with or without the caller also invoking the cancel function
 				_, t := zzDecodeFrame(nc.frames[base])
 				_ = zzFeed(cc, zzMkFrame(codes.Pong, t, nil))
-				symYield()
+				symIdle()
+				symAssert(pong, "the pong reaches the caller")
+				if symChoose("cancel-after-pong", 2) == 1 {
+					stop()
+				}
+				symCover("ping-answered")
+			} else {
+				stop() // given up
 			}
-			_ = pong
-			stop()
 			symCover("ping")
 		case 3: // one-way write
 			m := pool.NewMessage(context.Background())
